@@ -46,7 +46,7 @@ def base_cfg(rng, prof):
         cfg['syms'] = [[rng.choice(SYMS), rng.choice(['0', '1', '5', '1', None])]]
     if rng.random() < 0.3:
         s = rng.choice([x for x in SYMS if x not in [y[0] for y in cfg['syms']]])
-        cfg['cli'] = [[s, rng.choice(['0', '1', '2', ''])]]
+        cfg['cli'] = [[s, rng.choice(['0', '1', '2', '', '1=1'])]]       # (the name ends at the first '=')
     return cfg
 
 
